@@ -371,6 +371,11 @@ class FileSet:
         with open(self.not_raster, "w", encoding="utf-8") as f:
             f.write("this is not an image\n")
         self.missing = os.path.join(root, "does_not_exist.tif")
+        # a raster whose (relative) name is one of the three strings update_conf rewrites: only meaningful for a caller
+        # whose working directory is `root` (see C17: input_case)
+        add("NaN", 1, 5, 6)
+        self.info["NaN"] = self.info.pop(os.path.join(root, "NaN"))
+        self.img_magic = "NaN"
 
     def wire(self):
         return self.info
